@@ -295,6 +295,7 @@ type Exec struct {
 
 	unwindIsViolation bool
 	bigW              int
+	hashBits          int
 	splitIndex        bool
 }
 
@@ -332,6 +333,7 @@ func (ex *Exec) resetPath(prefix []int) {
 	}
 	ex.unwind = 64
 	ex.bigW = defaultBigW
+	ex.hashBits = 0
 	ex.splitIndex = false
 	ex.unwindIsViolation = false
 	ex.depth = 0
